@@ -106,7 +106,7 @@ dictionary words at the start region and at the very end; same oracle",
         long_sentence_cases().into_iter(),
         |c: &TrainCase| test_case(c).map(|mut i| { i.nontrivial = true; i }),
     );
-    let n = rep.n(60000, 600000);
+    let n = rep.n(60000, 3000000);
     rep.run_prop(
         "examples",
         "generated corpora (1-8 sentences over a 3-6 character palette; tokenized, partially \
